@@ -15,7 +15,14 @@
                                                                    Go: if a >= 0 {int(a)} else {int(a) - 1}
      rnd r          round radix2 (FLT_exp (-1074) 53) ZnearestE r  binary64 round to nearest even
    [int_of_f] is Flocq's Btrunc (truncation toward zero; 0 on NaN/infinities, where Go's int() is
-   implementation-specific: the theorems below only use it on finite values). *)
+   implementation-specific: the theorems below only use it on finite values).
+   In the model every  x*y + z  of the Go source is two roundings (what the amd64 compiler emits; the
+   Go specification allows an architecture to fuse them, arm64/ppc64le/s390x do).
+
+   Contents: G_go_floor_* (the Go floor), G_decompose / G_fraction_bits / G_build_float64* (section 1),
+   G_lin_approx_log_* (2), G_lin_index_mono* (3), G_log_index_mono* (4, relative to a monotone
+   math.Log), G_cub_* (5, full monotonicity of the cubic mapping, by a rounding-error analysis of the
+   Horner evaluation), G_lower_lin_* (6), examples by vm_compute.  Nothing is partial. *)
 From Coq Require Import Bool NArith ZArith Reals.
 From Flocq Require Import Core.Core IEEE754.BinarySingleNaN IEEE754.Binary IEEE754.Bits.
 From SK Require Import Base.Prelude Base.F64 Base.F64Proofs Mapping.Glue Mapping.GlueProofs.
@@ -377,7 +384,7 @@ Example G_ex_lower_tiny_negative (L : libm) :
   bits_of_f64 (approx_inverse_log L MLin (fb 13560338478012563456)) = 4602678819172646912%N.  (* 0.5 *)
 Proof. intros H. unfold approx_inverse_log. rewrite H. vm_compute. reflexivity. Qed.
 
-(* ... while at t = 0 it is 1.0 and at t = -2^-52 (floor -1.0) it is 1 - 2^-53 *)
+(* ... while at t = 0 (floor 0.0) it is 1.0 *)
 Example G_ex_lower_zero (L : libm) :
   l_floor L f64_zero = f64_zero ->
   bits_of_f64 (approx_inverse_log L MLin f64_zero) = 4607182418800017408%N.
